@@ -19,6 +19,8 @@ type propDef struct {
 	info  PropInfo
 	insts func(tier string) []*Instance
 	tv    func(tier string, seed int64) []*TV
+	// static: an additional whole-program scan over the SSA (used by C19); returns violations and notes
+	static func(P *Program) (viol []string, notes []string)
 }
 
 var props = map[string]*propDef{}
